@@ -22,12 +22,12 @@ CHECKS = {
         "technique": TLA + "spec-generated cases replayed into the code and recorded calls trace-validated against the spec",
     },
     "C03": {
-        "text": "Bounded-exhaustive: for every tree size t<=16/64 (distinct records) and t<=5/7 (all two-content sequences), every n, and every member of a mutation family over proof hashes, length, order, index, sizes, leaf and roots, TLC checks that the RFC 9162 iterative verifier and the RFC 6962 recursive verifier of the specification agree, and the verdicts and proofs are replayed into tlog.CheckRecord/CheckTree/ProveRecord/ProveTree; proofs on random trees up to 2000 records are trace-validated by position.",
+        "text": "Bounded-exhaustive: for every tree size t<=16/64 (distinct records) and t<=5/7 (all two-content sequences), every n, and every member of a mutation family over proof hashes, length, order, index, sizes, leaf and roots, TLC checks that the RFC 9162 iterative verifier and the RFC 6962 recursive verifier of the specification agree, and the verdicts and proofs are replayed into tlog.CheckRecord/CheckTree/ProveRecord/ProveTree; proofs on random trees up to 2000 records are trace-validated by position. Beyond 32-bit integers: TlogBig states RFC 6962 over binary numerals for uniform logs (cross-checked against the integer-level definitions on sizes up to 40); sizes 2^e and 2^e +- 1 up to 2^63 - 1 with six proof mutations each go to CheckRecord / CheckTree, the provers and TreeHash (logs up to 2^61 records served by a computed reader), every call under a watchdog.",
         "note": "Trusted: the TLA+ transcription of RFC 6962 2.1.1-2.1.2 and RFC 9162 2.1.3.2/2.1.4.2; hashes as free terms (SHA-256 collision resistance); refmerkle concretization. Bounds: tree sizes, mutation family.",
         "technique": TLA + "spec-generated (proof, sizes, index, hashes) tuples with RFC verdicts replayed into the checkers; recorded proofs trace-validated",
     },
     "C09": {
-        "text": "Bounded-exhaustive: TLC explores the append-only log specification (all two-content sequences to length 8/10, distinct sequences to 32/64) with the layout bijection, stored-hash = MTH, count and tree-hash invariants; every state is replayed into tlog with hash terms concretized; record/tree text encodings over a small alphabet; recorded logs of thousands of appends are trace-validated by position.",
+        "text": "Bounded-exhaustive: TLC explores the append-only log specification (all two-content sequences to length 8/10, distinct sequences to 32/64) with the layout bijection, stored-hash = MTH, count and tree-hash invariants; every state is replayed into tlog with hash terms concretized; record/tree text encodings over a small alphabet; recorded logs of thousands of appends are trace-validated by position. Stored positions, counts and tree hashes of uniform logs of up to 2^61 records are specified over binary numerals (TlogBig) and compared with StoredHashIndex / SplitStoredHashIndex / StoredHashCount / TreeHash; recorded long logs sweep record lengths and sizes around powers of two and multiples of 256.",
         "note": "Trusted: TLA+ transcription of RFC 6962 2.1 and of the documented write order; hashes as free terms; 32-bit TLC integers bound coordinates to < 2^30; base64/strconv trusted.",
         "technique": TLA + "state-by-state replay of the log specification into tlog and trace validation of recorded appends",
     },
@@ -37,17 +37,17 @@ CHECKS = {
         "technique": TLA + "adversarial reader state machine explored by TLC, terminal states replayed into the code, recorded reads trace-validated",
     },
     "C01": {
-        "text": "Model checking with fault enumeration: the client is a TLA+ state machine (one action per external operation or critical section, tiles fetched and authenticated one by one with Tiles.tla) against an adversary corrupting 1-3 responses of any kind from network or cache; TLC checks ResultAuthentic, CacheAuthentic, ConfigAuthentic, HonestLive and the chain properties over log sizes 1-6/1-12, heights 1-2/1-3, cold/warm caches, restarts, growing server. Every complete behaviour is replayed into the real sumdb.Client against an independently built world with ground-truth observers on every ClientOps call (zero protocol drift on the unchanged tree); random multi-fault runs on trees up to 300/2000 records, heights 1-8, are trace-validated by SumdbMonitor.",
+        "text": "Model checking with fault enumeration: the client is a TLA+ state machine (one action per external operation or critical section, tiles fetched and authenticated one by one with Tiles.tla) against an adversary corrupting 1-3 responses of any kind from network or cache; TLC checks ResultAuthentic, CacheAuthentic, ConfigAuthentic, HonestLive and the chain properties over log sizes 1-6/1-12, heights 1-2/1-3, cold/warm caches, restarts, growing server. Every complete behaviour is replayed into the real sumdb.Client against an independently built world with ground-truth observers on every ClientOps call (zero protocol drift on the unchanged tree); random multi-fault runs on trees up to 300/2000 records, heights 1-8, are trace-validated by SumdbMonitor. Further configuration families: a server that has moved on (head smaller than its log, partial tiles gone, damaged full tile served instead) and a cache left by a client that went further (complete tiles present, partial ones not).",
         "note": "Trusted: hashes as free terms, signatures as facts (SHA-256, Ed25519), the sumworld builder and its labels. Bound: number of corrupted responses per behaviour and log size in the exhaustive part.",
         "technique": TLA + "adversarial client state machine explored by TLC, behaviours replayed into the real client, recorded runs trace-validated by an observer specification",
     },
     "C13": {
-        "text": "Model checking: the same client specification with two timelines sharing a prefix of 0-3 records, a server that answers from either timeline and switches up to twice, one client across a restart or two clients sharing configuration and cache; TLC checks ConfigChain, MemChain, SecurityIsReal, SecurityHasBoth, CacheAuthentic. Every behaviour is replayed into the real client with observers for: stored head only moves to a signed extension, no two inconsistent heads stored, a presented fork fails the lookup and leaves the stored head alone, security reports carry both signed notes. Random forks at sizes up to 500 and heights up to 8 are trace-validated.",
+        "text": "Model checking: the same client specification with two timelines sharing a prefix of 0-3 records, a server that answers from either timeline and switches up to twice, one client across a restart or two clients sharing configuration and cache; TLC checks ConfigChain, MemChain, SecurityIsReal, SecurityHasBoth, CacheAuthentic. Every behaviour is replayed into the real client with observers for: stored head only moves to a signed extension, no two inconsistent heads stored, a presented fork fails the lookup and leaves the stored head alone, security reports carry both signed notes. Random forks at sizes up to 500 and heights up to 8 are trace-validated. Schedules of particular shapes are found exhaustively under a view that keeps one history per state and scenario flag and replayed through the gate scheduler: a split view meeting two goroutines of one client (ForkRace), a thread overtaken between install and flush (OvertakenFlush), a lost compare-and-swap between two clients (CasLost).",
         "note": "Trusted: as C01. Fine-grained interleavings of clients writing the shared configuration are explored under C14's configurations; here multi-client histories are sequential per lookup.",
         "technique": TLA + "two-timeline client state machine explored by TLC, behaviours replayed into the real client, recorded fork runs trace-validated",
     },
     "C14": {
-        "text": "Model checking of interleavings: the client specification with every separately atomic region of the implementation as its own action (sync.Once, record-cache claim and wait, snapshot / compare-and-set install with retry, configuration compare-and-swap with retry) is explored exhaustively by TLC for 1x2 and 2x1 (quick) and 2x2, 1x3, 3x1 (thorough) threads against an honest growing server. Schedules drawn by TLC (plain and race-directed: only behaviours with a write conflict or an install retry) are replayed deterministically into the real client through gates at every ClientOps call and verif hook point, with zero drift on the unchanged tree; 8-64 free-running goroutines x 1-3 clients against the repository's Server/TestServer are recorded under the race detector and validated by SumdbMonitor.",
+        "text": "Model checking of interleavings: the client specification with every separately atomic region of the implementation as its own action (sync.Once, record-cache claim and wait, snapshot / compare-and-set install with retry, configuration compare-and-swap with retry) is explored exhaustively by TLC for 1x2 and 2x1 (quick) and 2x2, 1x3, 3x1 (thorough) threads against an honest growing server. Schedules drawn by TLC (plain and race-directed: only behaviours with a write conflict or an install retry) are replayed deterministically into the real client through gates at every ClientOps call and verif hook point, with zero drift on the unchanged tree; 8-64 free-running goroutines x 1-3 clients against the repository's Server/TestServer are recorded under the race detector and validated by SumdbMonitor. The head-merging core alone (LatestMerge, integers only) is proved by TLAPS for any number of goroutines and confirmed by Apalache as an inductive invariant over unbounded integers. Scenario schedules (OvertakenFlush, CasLost) are found exhaustively and replayed; every external operation during a private-path lookup is attributed by goroutine.",
         "note": "The 'no data races' clause is decided by the Go race detector, not by TLC. Tile fetches are atomic and honest in these configurations. Trusted: goroutine-state polling for quiescence (a wrong quiescence verdict costs drift, not soundness).",
         "technique": TLA + "exhaustive interleaving exploration, TLC-simulated schedules replayed through a gate scheduler into the real client, recorded concurrent runs trace-validated",
     },
@@ -67,12 +67,12 @@ CHECKS = {
         "technique": TLA + "spec-generated (layout, request) cases replayed into the setters, output block structures trace-validated against TLA+ layout predicates",
     },
     "C02": {
-        "text": "Model-based with an independent oracle: ModfileSyntax.tla is a character-level lexer (with positions) and statement parser written from the grammar; TLC enumerates every sequence of up to 4/5 lexical items (12 classes) and 3/4 items (28 items) plus a transition cover, printing the specification's verdict, statements, tokens and comment texts; the harness requires that the real parser's re-parse of its own formatted output equals the specification's reading of the input and that formatting is idempotent (4 M inputs replayed with zero drift on the unchanged tree). Well-formed layouts in five text variants, with and without a version fixer, must keep their directive values through formatting. Mutated fixtures are parsed by the specification under TLC.",
+        "text": "Model-based with an independent oracle: ModfileSyntax.tla is a character-level lexer (with positions) and statement parser written from the grammar; TLC enumerates every sequence of up to 4/5 lexical items (12 classes) and 3/4 items (28 items) plus a transition cover, printing the specification's verdict, statements, tokens and comment texts; the harness requires that the real parser's re-parse of its own formatted output equals the specification's reading of the input and that formatting is idempotent (4 M inputs replayed with zero drift on the unchanged tree). Well-formed layouts in five text variants, with and without a version fixer, must keep their directive values through formatting. Mutated fixtures are parsed by the specification under TLC. The directive-layer inputs of ModfileDirectiveGen go through the same round trip; well-formed layouts are also rendered with directory arguments ending in comment openers, comments with trailing blanks, short versions and the module directive as a block.",
         "note": "Trusted: the transcription of the lexical grammar and of unicode.IsSpace/IsPrint for the generated character set. Not modelled: comment attachment and the printer's layout (the property lets attachment move).",
         "technique": TLA + "independent lexer/parser specification; spec-generated inputs replayed through parse-format-parse; recorded mutated inputs trace-validated",
     },
     "C20": {
-        "text": "Same inputs as C02 including all rejected ones and an error-directed item family, with the predicates of C20: no panic / hang / internal error (watchdog and recover), every position in trees and errors recomputed from the byte offset and compared with the specification lexer's positions, ParseLax accepts every layout Parse accepts with the same module/go/require/retract values and ignores appended unknown directives and blocks, ModulePath agrees with the strict parser (one known finding: a block line whose first token is 'module').",
+        "text": "Same inputs as C02 including all rejected ones and an error-directed item family, with the predicates of C20: no panic / hang / internal error (watchdog and recover), every position in trees and errors recomputed from the byte offset and compared with the specification lexer's positions, ParseLax accepts every layout Parse accepts with the same module/go/require/retract values and ignores appended unknown directives and blocks, ModulePath agrees with the strict parser (one known finding: a block line whose first token is 'module'). Directive layer: every verb followed by every sequence of up to 3/4 words, as a line, as a one-line block and after a module line (ModfileDirectiveGen); Parse, ParseLax and ParseWork are called on every generated and recorded input under a watchdog.",
         "note": "Trusted: as C02. Strict acceptance of the layouts is observed from the code, not predicted by a directive-level specification; the lax/strict and ModulePath clauses are relations between functions of the code, checked on spec-generated layouts.",
         "technique": TLA + "spec-generated inputs (accepted and rejected) with predicted positions replayed into the parsers; recorded mutated inputs trace-validated",
     },
@@ -92,27 +92,27 @@ CHECKS = {
         "technique": TLA + "pseudo-version specification over the semver specification; generated cases replayed, recorded calls trace-validated",
     },
     "C05": {
-        "text": "Bounded-exhaustive: ModZip.tla models classification, creation, the archive check and extraction over paths as character sequences; TLC checks the create / check / extract round trip and soundness of valid files on every list of up to 2/3 files over a curated path set x modes x sizes x go versions; each list goes through the real zip.Create, and the bytes produced through the real zip.CheckZip and zip.Unzip, with the extracted tree compared byte for byte with the files reported valid; random lists of up to 30 files are recorded and re-derived under TLC.",
+        "text": "Bounded-exhaustive: ModZip.tla models classification, creation, the archive check and extraction over paths as character sequences; TLC checks the create / check / extract round trip and soundness of valid files on every list of up to 2/3 files over a curated path set x modes x sizes x go versions; each list goes through the real zip.Create, and the bytes produced through the real zip.CheckZip and zip.Unzip, with the extracted tree compared byte for byte with the files reported valid; random lists of up to 30 files are recorded and re-derived under TLC. Every creatable list is also created for a second module (upper-case letters, /v2, pre-release version); the produced archive is checked against the documented restrictions with strings.EqualFold as an oracle independent of the package's collision checker.",
         "note": "Module example.com/m v1.0.0 only; sizes are classes (a few bytes / 16 MiB + 1); archive/zip and the file system are trusted.",
         "technique": TLA + "module-zip specification; generated file lists replayed through Create, CheckZip, Unzip; recorded random lists trace-validated",
     },
     "C12": {
-        "text": "Bounded-exhaustive: ModZip.tla models CheckZip and extraction; TLC checks that whatever may be extracted has clean relative well-formed names; every archive of up to 3/4 raw entries over 28 hostile entry variants is written with raw headers and given to the real zip.CheckZip and zip.Unzip inside a sentinel directory whose content (parent and siblings of the target) must be unchanged afterwards, with verdicts, lists and extracted tree equal to the specification's; random archives of up to 12 entries are recorded and re-derived under TLC.",
+        "text": "Bounded-exhaustive: ModZip.tla models CheckZip and extraction; TLC checks that whatever may be extracted has clean relative well-formed names; every archive of up to 3/4 raw entries over 28 hostile entry variants is written with raw headers and given to the real zip.CheckZip and zip.Unzip inside a sentinel directory whose content (parent and siblings of the target) must be unchanged afterwards, with verdicts, lists and extracted tree equal to the specification's; random archives of up to 12 entries are recorded and re-derived under TLC. Total-size limit (declared sizes of 500 MiB + 1 and 2^63), zero-size lies, and a non-empty target whose names are links leading out of it.",
         "note": "Size lies are rejected by extraction but not by the header-only zip check (read as part of what extraction enforces). Only the sentinel directory is observed, not the whole file system. The 500 MiB total limit is not exercised.",
         "technique": TLA + "module-zip specification; generated hostile archives replayed through CheckZip and Unzip in a sentinel directory; recorded random archives trace-validated",
     },
     "C17": {
-        "text": "Bounded-exhaustive: ModZip.Classify is the documented rule list in order, with both vendor variants; TLC checks exactly-one-list and order independence on every list of up to 2/3 files; each list is classified by the real zip.CheckFiles and compared; lists of regular files and directories are also materialized as trees and CheckDir / CreateFromDir compared with CheckFiles / Create on the list (verdict, entries, bytes, reports); random lists of up to 30 files are recorded and re-derived under TLC.",
+        "text": "Bounded-exhaustive: ModZip.Classify is the documented rule list in order, with both vendor variants; TLC checks exactly-one-list and order independence on every list of up to 2/3 files; each list is classified by the real zip.CheckFiles and compared; lists of regular files and directories are also materialized as trees and CheckDir / CreateFromDir compared with CheckFiles / Create on the list (verdict, entries, bytes, reports); random lists of up to 30 files are recorded and re-derived under TLC. The directory is also given in four unclean spellings.",
         "note": "Directory side only for materializable lists without VCS metadata; which of two colliding files is reported depends on order by design (set equality is checked when nothing collides).",
         "technique": TLA + "module-zip classification specification; generated lists replayed through CheckFiles, CheckDir, Create, CreateFromDir; recorded random lists trace-validated",
     },
     "C19": {
-        "text": "Bounded-exhaustive: DirHash.tla models the summary at text level with an abstract fixed-width digest; TLC checks order independence under all permutations, sortedness, injectivity against every one-file change/removal and newline refusal for all sets of up to 3/4 files over stress names; each set is hashed by dirhash.Hash1 in every listing order and compared with the formula written out in the harness over the specification's summary; random sets are recomputed under TLC; HashZip = HashDir = formula is evaluated on the archives produced in the module-zip replays.",
+        "text": "Bounded-exhaustive: DirHash.tla models the summary at text level with an abstract fixed-width digest; TLC checks order independence under all permutations, sortedness, injectivity against every one-file change/removal and newline refusal for all sets of up to 3/4 files over stress names; each set is hashed by dirhash.Hash1 in every listing order and compared with the formula written out in the harness over the specification's summary; random sets are recomputed under TLC; HashZip = HashDir = formula is evaluated on the archives produced in the module-zip replays. Two hashes over overlapping views of one listing, the second started from the first one's open callback; names with newlines in first and last position, percent signs, and unclean forms.",
         "note": "Trusted: SHA-256, hex and base64; the harness's independent rendering of the documented formula.",
         "technique": TLA + "summary specification; generated file sets replayed in every listing order, recorded hashes trace-validated",
     },
     "C07": {
-        "text": "Bounded-exhaustive: Note.tla models Sign and Open at line level with signatures as facts; TLC checks the sign/open round trip with the documented partition and, over every single structural mutation of every signed message, that a verified signature was made by a known key over exactly the returned text and that the text never changes; all messages (89 k quick) are made concrete with real Ed25519 keys, an ambiguous key pair and a lying Verifiers, behind recording verifiers, and opened by note.Open; a byte-level mutation sweep is abstracted to lines independently and validated by NoteTrace, with the property-level flag (every listed signature was accepted by its verifier over the returned text) taken from the recorders.",
+        "text": "Bounded-exhaustive: Note.tla models Sign and Open at line level with signatures as facts; TLC checks the sign/open round trip with the documented partition and, over every single structural mutation of every signed message, that a verified signature was made by a known key over exactly the returned text and that the text never changes; all messages (89 k quick) are made concrete with real Ed25519 keys, an ambiguous key pair and a lying Verifiers, behind recording verifiers, and opened by note.Open; a byte-level mutation sweep is abstracted to lines independently and validated by NoteTrace, with the property-level flag (every listed signature was accepted by its verifier over the returned text) taken from the recorders. Re-signing an opened note (Resign) is generated and replayed through the real Sign and Open; the limit of 100 signature lines is probed on both sides.",
         "note": "Trusted: Ed25519, base64, the harness's independent line splitter used for abstraction. Bounds: text shapes, key sets, one mutation per message in the exhaustive part.",
         "technique": TLA + "line-level note specification; spec-generated messages made concrete and opened by the code; recorded byte-mutated opens trace-validated",
     },
